@@ -1,7 +1,7 @@
 (* Extraction of the executable models (ExtrOcamlBasic only: bool, option,
    list, prod, unit, sumbool map to OCaml's; Z/N/positive stay inductive). *)
 From Coq Require Import Extraction ExtrOcamlBasic.
-From STS Require Import Model.Ranges Model.Chunk Model.Queue Model.LogM.
+From STS Require Import Model.Ranges Model.Chunk Model.Queue Model.LogM Model.Stage.
 Extraction Language OCaml.
 Set Extraction Optimize.
 Extraction "model.ml"
@@ -11,4 +11,6 @@ Extraction "model.ml"
   tiles_from_b tiles_ranges_b all_le_b bin_split new_bin is_full
   push pop group_ready has_name find_group is_alloc le_order name_eqb name_ltb
   OFIFO OLIFO OALPHA ONONE prio_sorted files_sorted qrun
-  search line_matches parse_line line_recv line_sent walk no_sep split join.
+  search line_matches parse_line line_recv line_sent walk no_sep split join
+  init_stage sstep prepare receive settle restart clean timers_fire received_q status_q scan_q
+  ahas alookup log_has SETTLE_FUEL.
